@@ -2,11 +2,12 @@ package main
 
 // Tie `racy-execution` (K2 on the extracted table, K1 on synthetic rows): the witness execution of
 // lean/ScVerif/C11/ExecNeed.lean (`racyExec a b`: publish, obtain, goroutine 1 takes a's locks, goroutine
-// 2 takes b's locks, both access) run through the Lean execution semantics and the Lean conformance check
+// 2 takes b's locks, both access; before that a third goroutine closes the channels the rows want
+// observed and the two goroutines observe them) run through the Lean execution semantics and the Lean conformance check
 // (driver `racy`), against an independent Go reading of what that execution needs: it is an execution
 // iff each row names a lock once and no common lock has an exclusive side; it does what the rows say iff
-// neither row is constructor-phase, the rows do not share a non-zero role and neither relies on an
-// observed close; it never contains a synchronisation between the two accesses.  Cross-check of the
+// neither row is constructor-phase, the rows do not share a non-zero role and no channel a row wants
+// observed is one a row closes afterwards; it never contains a synchronisation between the two accesses.  Cross-check of the
 // theorems on every pair of the real table: a conforming racy execution exists exactly for the pairs the
 // discipline does not order (`consistent`).
 
@@ -39,7 +40,19 @@ func goRacy(a, b *Row) string {
 	// the clauses about the state at an access (locks held, object unpublished) only speak about
 	// executions: on a sequence the runtime does not allow they hold vacuously
 	phases := !valid || (a.Phase != "init" && b.Phase != "init")
-	conf := phases && (b.Role == 0 || b.Role != a.Role) && len(a.AcqBefore) == 0 && len(b.AcqBefore) == 0
+	// a third goroutine closes the channels the rows want observed: a row that lists one of them as closed
+	// after itself is contradicted by that close
+	closedEarly := map[string]bool{}
+	for _, c := range append(append([]string{}, a.AcqBefore...), b.AcqBefore...) {
+		closedEarly[c] = true
+	}
+	rel := true
+	for _, c := range append(append([]string{}, a.RelAfter...), b.RelAfter...) {
+		if closedEarly[c] {
+			rel = false
+		}
+	}
+	conf := phases && (b.Role == 0 || b.Role != a.Role) && rel
 	ord := goOrdered(a, b)
 	return fmt.Sprintf("valid=%s conf=%s sync=0 ordered=%s consistent=%s", bit(valid), bit(conf), bit(ord), bit(!(valid && conf && ord)))
 }
